@@ -914,6 +914,9 @@ def _value_position(value, name):
     return False
 
 
+BLOCKED_RECORDS = [("pwdint", "PwdintStream._rw2DRecord"), ("rtflux", "RtfluxStream._rw3DRecord"), ("rzflux", "RzfluxStream._rw2DRecord")]
+
+
 def r10_block_bandwidth(idx, r):
     """getBlockBandwidth splits nintj rows into nblok blocks: rows per block must be the CEILING of
     nintj/nblok (so that nblok blocks cover every row) and consecutive blocks must be contiguous."""
@@ -942,8 +945,14 @@ def r10_block_bandwidth(idx, r):
                 if (dotted(c.func) or "").endswith("getBlockBandwidth"):
                     users += 1
                     r.require(len(c.args) == 3, f"{m.relpath.rsplit('/', 1)[-1]}:{g.qualname}:bandwidth-call", g, node=c, msg="getBlockBandwidth(m, nintj, nblok)")
-    if users < 3:
-        raise AnalysisError("users of getBlockBandwidth not found")
+    # the record loops that split a dimension into NBLOK blocks (frozen from the tree the rule was confirmed on): each takes its bounds from
+    # getBlockBandwidth - a hand-rolled width (floor division) drops the last rows whenever the dimension is not a multiple of NBLOK
+    for mod, qual in BLOCKED_RECORDS:
+        g = next((x for x in idx.module(CCCC.rsplit(".", 1)[0] + "." + mod).all_funcs() if x.qualname == qual), None)
+        if g is None:
+            raise AnchorMissing(f"{mod}:{qual}")
+        r.require(any((dotted(c.func) or "").endswith("getBlockBandwidth") for c in iter_calls(g.node)), f"{mod}:{qual}:block-bounds-from-getBlockBandwidth", g,
+                  msg=f"{qual} no longer takes its block bounds from cccc.getBlockBandwidth: the CCCC blocking rule (ceiling) is replaced by a local computation, and the records and the rows they cover disagree with it")
 
 
 # ------------------------------------------------------------------------------------------------
@@ -1488,6 +1497,37 @@ def r20_numbered_fields_and_family_lookup(idx, r):
                   msg=f"`{norm(t)[:80]}` does not index the file-wide table by a family number of the nuclide: a nuclide whose families are not one consecutive ascending block gets the constants of other families")
 
 
+def r22_record_loops_cover_the_allocated_axis(idx, r):
+    """A record family that is read/written plane by plane (`for k in range(N): data[:, :, k] = rec.rw...(data[:, :, k], ...)`) runs over the
+    whole axis it fills: the loop bound is the extent the same function allocates for that axis.  A bound taken from a sibling count (coarse
+    instead of fine mesh) leaves the trailing planes unwritten and unread."""
+    n = 0
+    for m in _cccc_modules(idx):
+        for f in m.all_funcs():
+            alloc = {}
+            for s_ in iter_stores(f.node):
+                if s_.kind == "assign" and s_.chain and s_.value is not None and isinstance(s_.value, ast.Call) and (dotted(s_.value.func) or "").split(".")[-1] in ("zeros", "empty", "ones") and s_.value.args \
+                        and isinstance(s_.value.args[0], ast.Tuple):
+                    alloc[s_.chain] = [norm(x) for x in s_.value.args[0].elts]
+            if not alloc:
+                continue
+            for loop in [x for x in walk_local(f.node) if isinstance(x, ast.For) and isinstance(x.target, ast.Name) and isinstance(x.iter, ast.Call) and dotted(x.iter.func) == "range" and len(x.iter.args) == 1]:
+                v = loop.target.id
+                for st in iter_stores(loop):
+                    if st.kind != "subscript" or not isinstance(st.node.slice, ast.Tuple):
+                        continue
+                    base = norm(st.node.value)
+                    if base not in alloc or len(alloc[base]) != len(st.node.slice.elts):
+                        continue
+                    for axis, ix in enumerate(st.node.slice.elts):
+                        if isinstance(ix, ast.Name) and ix.id == v:
+                            n += 1
+                            r.require(norm(loop.iter.args[0]) == alloc[base][axis], f"{m.relpath.rsplit('/', 1)[-1]}:{f.qualname}:{base.split('.')[-1]}:axis{axis}-fully-covered", f, node=loop,
+                                      msg=f"the loop runs over range({norm(loop.iter.args[0])}) but axis {axis} of {base} is allocated with extent {alloc[base][axis]}: the planes beyond the loop bound are neither written nor read")
+    if n < 2:
+        raise AnchorMissing("plane-by-plane record loops over an axis allocated in the same function")
+
+
 def r21_pairing(idx, r):
     from ..pairing import pairing_rule
     pairing_rule(idx, r, ["armi.nuclearDataIO.cccc"], 100)
@@ -1553,3 +1593,5 @@ def run(idx, chk):
                  necessary="every value of the data model is written to and read from the field that holds it")
     chk.run_rule("R09.21", "arguments stand at the parameter they are named after; sibling calls forward the same pass-through parameters", lambda r: r21_pairing(idx, r), floor=1,
                  necessary="record helpers receive (value, type, shape) in that order")
+    chk.run_rule("R09.22", "a plane-by-plane record loop covers the whole axis the function allocates", lambda r: r22_record_loops_cover_the_allocated_axis(idx, r), floor=2,
+                 necessary="every value of the data model is written and read back")
